@@ -81,6 +81,8 @@ func (s selStep) text() string {
 			}
 		}
 		return "{" + strings.Join(parts, ", ") + "}"
+	case "bad":
+		return s.key // verbatim text of a step that does not parse
 	case "cont":
 		return "::"
 	case "fn":
@@ -94,7 +96,7 @@ func selText(steps []selStep) string {
 	var sb strings.Builder
 	prev := ""
 	for _, s := range steps {
-		if s.kind == "key" && (prev == "key" || prev == "index" || prev == "pipe") {
+		if s.kind == "key" && (prev == "key" || prev == "index" || prev == "pipe" || prev == "bad") {
 			sb.WriteByte('.')
 		}
 		sb.WriteString(s.text())
@@ -106,6 +108,13 @@ func selText(steps []selStep) string {
 // refSelect evaluates the step list on doc.  pipeLaw reports `{k|string}` conversions of numbers so
 // that the caller can check them as a law (the textual format is not fixed by the guide).
 func refSelect(doc any, steps []selStep) (any, error) {
+	// a selector is parsed as a whole before anything is evaluated: a step that does not parse is an
+	// error whatever the data
+	for _, st := range steps {
+		if st.kind == "bad" {
+			return nil, &selErr{"step does not parse: " + st.key}
+		}
+	}
 	// split at "::" into segments; a segment may start with fn=>
 	cur := doc
 	seg := []selStep{}
@@ -336,6 +345,9 @@ func refReader(data any, steps []selStep) (any, error) {
 			return out, nil
 		}
 		return nil, &selErr{"pipe step on a scalar"}
+	}
+	if s.kind == "bad" {
+		return nil, &selErr{"step does not parse: " + s.key}
 	}
 	return nil, &selErr{"unexpected step " + s.kind}
 }
